@@ -39,6 +39,14 @@ type Roam struct {
 	ID     string          `json:"id"`
 	Object json.RawMessage `json:"object"`
 	Meters json.Number     `json:"meters"`
+	Scan   []ScanEntry     `json:"scan"`
+}
+
+// ScanEntry is one element of the "scan" member of a ROAM ... SCAN message.
+type ScanEntry struct {
+	ID     string          `json:"id"`
+	Self   bool            `json:"self"`
+	Object json.RawMessage `json:"object"`
 }
 
 // Decode parses a notification body.
